@@ -259,7 +259,12 @@ static const char *FILES[] = { "A", "B", "C" };
 
 static void emit_all(const char *tag, struct char_vector *out)
 {
-    int fi, sv, k;
+    int fi, sv, k, padlen = 0;
+    char *pad;
+    const char *plus = strchr(tag, '+');
+    if (plus) padlen = atoi(plus + 1);      /* "T7+1000": every message is followed by '-' and 1000 filler characters */
+    pad = calloc(1, padlen + 2);
+    if (padlen) { pad[0] = '-'; memset(pad + 1, 'x', padlen); }
     for (k = 0; k < 3; ++k)
         if (truncate(FILES[k], 0) < 0) {}
     for (fi = 0; fi < 3; ++fi) {
@@ -271,14 +276,14 @@ static void emit_all(const char *tag, struct char_vector *out)
                 fflush(NULL);
                 p = fork();
                 if (p == 0) {
-                    log_message(lt, LOG_FATAL, "%s-%s-%s", tag, FACS[fi], SEVN[sv]);
+                    log_message(lt, LOG_FATAL, "%s-%s-%s%s", tag, FACS[fi], SEVN[sv], pad);
                     _exit(9); /* not reached: LOG_FATAL terminates */
                 }
                 waitpid(p, &st, 0);
                 if (!WIFEXITED(st) || WEXITSTATUS(st) != 1)
                     char_vector_append_printf(out, "\"fatal_%s\":%d,", FACS[fi], WIFEXITED(st) ? WEXITSTATUS(st) : -WTERMSIG(st));
             } else
-                log_message(lt, (enum log_severity)sv, "%s-%s-%s", tag, FACS[fi], SEVN[sv]);
+                log_message(lt, (enum log_severity)sv, "%s-%s-%s%s", tag, FACS[fi], SEVN[sv], pad);
         }
     }
     for (k = 0; k < 3; ++k) {
@@ -458,7 +463,17 @@ struct shm {
     long rc_hist[8];    /* by -rc (0..7) */
     long maxlen_ok;
     int stop_reason;    /* 1 = success, 2 = violation (state contaminated), 3 = end */
+    unsigned long ok_hash, ref_hash;   /* dump of the tree after a successful load: in the sweeping worker / in a fresh fork of the prior state */
+    long fails_in_worker;              /* failed loads this worker went through before the success */
+    long n_diff_checked;
 };
+
+static unsigned long fnv(const char *s)
+{
+    unsigned long h = 1469598103934665603ul;
+    for (; *s; ++s) h = (h ^ (unsigned char)*s) * 1099511628211ul;
+    return h;
+}
 
 struct source {
     int kind;           /* 0 list, 1 token strings */
@@ -557,6 +572,8 @@ static void do_sweep(struct ev *hist, int nh, struct source *src, int report_ok)
                             char_vector_append(&line, '}');
                             put_line(&line);
                         }
+                        shm->ok_hash = fnv(after);
+                        shm->fails_in_worker = i - next;
                         free(after);
                         shm->done = i + 1; shm->stop_reason = 1;
                         _exit(0);
@@ -613,8 +630,40 @@ static void do_sweep(struct ev *hist, int nh, struct source *src, int report_ok)
                 put_line(&line);
                 free(e);
                 next = i + 1;
-            } else
+            } else {
+                if (shm->stop_reason == 1 && shm->fails_in_worker > 0) {
+                    /* the successful load came after failed ones in the same process: the result must be what a fresh fork of the
+                     * prior state gets for the same bytes (a failed load leaves nothing behind, not even in parser statics) */
+                    long i = shm->done - 1;
+                    pid_t f;
+                    int st2;
+                    fflush(NULL);
+                    f = fork();
+                    if (f == 0) {
+                        char *d;
+                        cand_get(src, i, &cand);
+                        alarm(10);
+                        do_load(cand.vec, cand.used);
+                        d = dump_tree();
+                        shm->ref_hash = fnv(d);
+                        _exit(0);
+                    }
+                    waitpid(f, &st2, 0);
+                    shm->n_diff_checked++;
+                    if (WIFEXITED(st2) && WEXITSTATUS(st2) == 0 && shm->ref_hash != shm->ok_hash) {
+                        cand_get(src, i, &cand);
+                        shm->n_viol++;
+                        char_vector_append_printf(&line, "{\"violation\":{\"kind\":\"after-failed-loads\",\"rc\":0,\"failed_before\":%ld,\"input\":", shm->fails_in_worker);
+                        jhex(&line, cand.vec, cand.used);
+                        char_vector_append_string(&line, ",\"first_failed\":");
+                        cand_get(src, i - shm->fails_in_worker, &cand);
+                        jhex(&line, cand.vec, cand.used);
+                        char_vector_append_string(&line, "}}");
+                        put_line(&line);
+                    }
+                }
                 next = shm->done;
+            }
             close(efd);
             if (shm->stop_reason == 3) break;
         }
@@ -623,8 +672,8 @@ static void do_sweep(struct ev *hist, int nh, struct source *src, int report_ok)
     waitpid(c, &st, 0);
     {
         char *e = slurp_fd(herr);
-        char_vector_append_printf(&line, "{\"end\":\"%s\",\"total\":%ld,\"fail\":%ld,\"ok\":%ld,\"viol\":%ld,\"fatal_exit\":%ld,\"maxlen_ok\":%ld,\"rc_hist\":[",
-                                  status_text(st, sb), src->total, shm->n_fail, shm->n_ok, shm->n_viol, shm->n_fatal, shm->maxlen_ok);
+        char_vector_append_printf(&line, "{\"end\":\"%s\",\"total\":%ld,\"fail\":%ld,\"ok\":%ld,\"viol\":%ld,\"fatal_exit\":%ld,\"maxlen_ok\":%ld,\"diff_checked\":%ld,\"rc_hist\":[",
+                                  status_text(st, sb), src->total, shm->n_fail, shm->n_ok, shm->n_viol, shm->n_fatal, shm->maxlen_ok, shm->n_diff_checked);
         for (k = 0; k < 8; ++k) char_vector_append_printf(&line, "%s%ld", k ? "," : "", shm->rc_hist[k]);
         char_vector_append_string(&line, "],\"stderr\":");
         jstr(&line, strlen(e) > 4000 ? e + strlen(e) - 4000 : e);
